@@ -1,5 +1,5 @@
 PROP = dict(
-    coq=["Ext/ExtHarness.vo", "Ext/Pack.vo"],
+    coq=["Ext/ExtHarness.vo", "Ext/Pack.vo", "Queue/QueueHarness.vo", "Html/HtmlHarness.vo", "Html/Lit.vo"],
     legs=[
         dict(binary="zext", driver="fileext", quick=3000, thorough=40000, shard=400,
              monitors=["file_ext_spec (computed from the end of the string)", "file_ext_is_last_segment (class known by construction)"]),
@@ -19,6 +19,13 @@ PROP = dict(
         dict(binary="zext", driver="s3", quick=400, thorough=8000, shard=40,
              monitors=["s3_walk_complete: every non-empty object under the root prefix queued", "s3_walk_complete (converse): nothing else queued",
                        "s3_walk_terminates within walk_bound fetch decisions"]),
+        # "...has been QUEUED" / "...is REQUESTED": what happens to the extracted links afterwards, in the two places where independent
+        # seeded changes lost them: the local queue's producer (driver of C15, its monitor 1: every outlink handed over is a row of lq.db)
+        # and the resolution of a child's relative URL against the item it was found on (driver of C07, its monitor 4)
+        dict(driver="lqflow", binary="zqueue", corpus_from="C15", quick=8, thorough=100, shard=2, noshrink=True, only_monitors=[1],
+             monitors=["(C15)", "lq_every_outlink_queued_with_fields", "(C15)", "(C15)"]),
+        dict(driver="htmlreq", binary="zhtml", corpus_from="C07", quick=120, thorough=3000, shard=50, only_monitors=[4],
+             monitors=["(C07)", "(C07)", "(C07)", "(C07)", "redirect_chain_followed (every hop resolved against its parent)"]),
     ],
     partial="encoding/json, encoding/xml, grafov/m3u8, fasturl (isValidURL) and xurls are oracles: the model works on the decoded JSON value "
             "tree (with an embedded-JSON node carrying what json.Unmarshal yields), on the RawToken tree, on the playlist line structure, and takes "
